@@ -8,6 +8,13 @@ import json, sys
 
 def emit(prop, specs, out):
     lines = ["package main", "", "func init() {", "\taddMutants("]
+    errs = []
+    for s in specs:
+        src = open("/repo/" + s["file"]).read()
+        if src.count(s["old"]) != 1:
+            errs.append("%s: old text occurs %d times in %s" % (s["id"], src.count(s["old"]), s["file"]))
+    if errs:
+        sys.exit("\n".join(errs))
     for s in specs:
         src = open("/repo/" + s["file"]).read()
         n = src.count(s["old"])
